@@ -80,8 +80,8 @@ SPECS = {
                  "reference encoding is decoded by csproto.Decoder; or one well-formed field sequence walked with DecodeTag+Skip in safe and fast "
                  "mode (each returned slice must equal the reference walker's field extent, concatenation must reproduce the input); "
                  "distinct by (kind, value class, key class, mode) resp. (wire-type set, key-length set, mode) for sequences with >=3 fields and >=2 wire types"),
-        "explanation": "same value/field-number sets as C01 (thorough: the 2^32 sweeps compare bytes with the references in the same loop); Skip: 5 000 (quick) / 500 000 (thorough) seeded sequences of 1-40 fields incl. numbers >=2^26, nested payloads and 70 000-byte payloads; every scalar and packed field is decoded a second time with 17 bytes of other fields behind it in the buffer; Skip is also exercised by Seek to a field's payload followed by Skip, in an order unrelated to the field order",
-        "assumptions": TRUST_WIRE + ["only encodings a conforming writer emits are fed to the decoder here (minimal varints, four wire types)"],
+        "explanation": "same value/field-number sets as C01 (thorough: the 2^32 sweeps compare bytes with the references in the same loop); Skip: 5 000 (quick) / 500 000 (thorough) seeded sequences of 1-40 fields incl. numbers >=2^26, nested payloads and 70 000-byte payloads; every scalar and packed field is decoded a second time with 17 bytes of other fields behind it in the buffer; Skip is also exercised by Seek to a field's payload followed by Skip, in an order unrelated to the field order; one length prefix in six and one varint value in eight of the Skip sequences is written with redundant continuation bytes (valid, as writers that back-fill lengths emit them)",
+        "assumptions": TRUST_WIRE + ["only encodings a conforming writer emits are fed to the decoder here (four wire types; keys always minimal, values and length prefixes minimal except in the Skip sequences)"],
     },
     "C03": {
         "binary": "wl-wire", "flavor": "plain", "shards": 16, "run": simple_run,
@@ -239,8 +239,8 @@ SPECS.update({
         "rule": ("one case = (message value, legal encoding variant) where the variant bytes are produced by the reference codec from the value tree: canonical, reversed and shuffled field order, "
                  "opposite packing, packed runs split/mixed, duplicated singular scalars, split singular messages, several oneof members, map entries value-first / key omitted / value omitted / duplicate key, "
                  "explicit zero values, interleaved unknown fields; the generated Unmarshal (into a destination pre-populated with unrelated content and unknown bytes) must succeed and equal the dynamicpb parse "
-                 "of the same bytes on known fields, and equal a decode into a zero destination; non-trivial when the variant differs from the canonical encoding; distinct by (package, message, variant family, field/case)"),
-        "explanation": "differences are itemised per field path and signed by (flavour, variant family - or canonical when the canonical encoding of the shrunk value shows the same item -, item kind@field shape); families added by the seeded rounds: mapomitboth, splitmsg-empty (an empty occurrence around the complete one), splitmsg+unknown, oneof-aba (same member, other member, same member), unknown-padded",
+                 "of the same bytes including the unknown fields either decoder retains (compared per field number), and equal a decode into a zero destination; non-trivial when the variant differs from the canonical encoding; distinct by (package, message, variant family, field/case)"),
+        "explanation": "differences are itemised per field path and signed by (flavour, variant family - or canonical when the canonical encoding of the shrunk value shows the same item -, item kind@field shape); families added by the seeded rounds: mapomitboth, splitmsg-empty (an empty occurrence around the complete one), splitmsg+unknown, oneof-aba (same member, other member, same member), oneof-aba-full (the earlier occurrence is a different, complete value of the member type), oneof-msgloser (an empty message member loses against the real scalar member), unknown-padded; self-recursive types also get a chain 120 levels deep",
         "assumptions": TRUST_GEN + ["variants not listed in the statement (over-long varints, zero-length packed runs, unknown fields inside map entries, groups) are not generated"],
     },
     "C07": {
@@ -263,7 +263,7 @@ SPECS.update({
         "rule": ("one case = (proto2 message value, subset of its reachable set required fields cleared): all 2^k subsets when k<=6 required slots are populated in the value tree (own fields, singular child, repeated element, map value, "
                  "oneof member, extension value), each slot alone plus 64 seeded subsets beyond; generated Marshal / csproto.Marshal must fail iff the reference CheckInitialized fails, and generated Unmarshal of the reference's partial encoding "
                  "must fail iff the reference's strict Unmarshal fails (empty message / empty input included); distinct by (package, message, nesting positions of the unset fields)"),
-        "explanation": "the oracle is google.golang.org/protobuf's proto.CheckInitialized and strict proto.Unmarshal on dynamic messages",
+        "explanation": "the oracle is google.golang.org/protobuf's proto.CheckInitialized and strict proto.Unmarshal on dynamic messages; besides the reference's canonical encoding every partial value is also decoded from its splitmsg and oneof encodings (message field split over two occurrences, empty occurrences, several oneof members in a row incl. complete-then-partial and message-then-scalar), judged against the reference's strict parse of the same bytes; the same bytes are decoded into a destination that already holds a complete value",
         "assumptions": TRUST_GEN,
     },
 })
@@ -463,7 +463,7 @@ SPECS.update({
                  "MsgType equals the flavour's class; csproto.Equal across runtimes is false; unsupported values (nil, int, string, struct, pointer to non-message, typed nil, slice) give the documented error/zero result without panic; "
                  "distinct by (flavour, plain/fast, message, value class). concurrent: rounds in which G in {2,16,64} goroutines (GOMAXPROCS 1,2,16) call MsgType/Clone/MarshalText on values of types whose classification was just "
                  "evicted (verif hook), with seeded yields between cache miss and store, under -race; every goroutine must observe the correct class; evidence counts rounds with >=2 goroutines inside the miss window"),
-        "explanation": "every case ends with Size/Marshal after lock-step in-place mutations of the message that was sized and marshaled before (oracle: the owning runtime's Marshal of a fresh copy of the current contents); gogo well-known types are exercised as fields of plain gogo types; decoding (value bytes, nil, empty payload; Unmarshal and GrpcCodec) into a message that already holds other content must match the owning runtime's Unmarshal; plain types with an unset required field must be accepted/refused like the owning runtime does; Equal(generated, *dynamicpb.Message of the same descriptor) vs proto.Equal for Google V2; MarshalText on messages with unknown fields and on typed nil pointers; plain gogo types also in the 'plainsz' flavour (generated Size(), no Marshal/Unmarshal)",
+        "explanation": "every case ends with Size/Marshal after lock-step in-place mutations of the message that was sized and marshaled before (oracle: the owning runtime's Marshal of a fresh copy of the current contents); gogo well-known types are exercised as fields of plain gogo types; decoding (value bytes, nil, empty payload; Unmarshal and GrpcCodec) into a message that already holds other content must match the owning runtime's Unmarshal; plain types with an unset required field must be accepted/refused like the owning runtime does; Equal(generated, *dynamicpb.Message of the same descriptor) vs proto.Equal for Google V2; MarshalText on messages with unknown fields and on typed nil pointers; plain gogo types also in the 'plainsz' flavour (generated Size(), no Marshal/Unmarshal); for half of the types (chosen by the seed) the first value csproto sees in the process is a typed nil pointer (MsgType/Clone/Equal/Size/MarshalText), whose result is not judged",
         "assumptions": TRUST_GEN + ["the owning runtime's API is the stated oracle for Clone/Equal/Reset/MarshalText", "the race detector only sees races on executions that happened"],
     },
 })
@@ -494,7 +494,7 @@ SPECS.update({
                  "equal as a JSON tree to the owning runtime's own encoder given the same options (protojson / golang jsonpb / gogo jsonpb called directly), be restored to an equal message by JSONUnmarshaler and by the owning runtime's decoder; "
                  "indentation must be whole copies of the indent string; enum fields are numbers iff requested; zero-valued implicit fields appear iff requested; JSON with an injected unknown key is accepted iff allowed; JSON lacking a required key "
                  "is accepted iff allowPartial (Google V2, as documented); nil -> (nil, nil), unmarshal into nil -> error; distinct by (flavour, message, option tuple, value class)"),
-        "explanation": "values with NaN or -0.0 are excluded (JSON cannot carry the distinction); comparisons are on parsed JSON trees, never on raw text; well-known types are additionally run as root messages (Value of all six kinds incl. null, Struct, ListValue, Timestamp, Duration, wrappers, FieldMask, Empty) for the Google V2 and Gogo runtimes, restricted to values the owning runtime's own JSON codec round-trips; typed nil pointers of 13 well-known types in the nil clause; gogo messages with an enum field imported from another gogo package are built by Go reflection (the bridge cannot reflect on them) and compared with gogo's jsonpb; two values per type have their strings overwritten in field order from a curated list (trailing backslash first, then ', ' / ':  ' / quotes / braces); adapters are also given the OTHER side's options set to the opposite values (no documented effect there)",
+        "explanation": "values with NaN or -0.0 are excluded (JSON cannot carry the distinction); comparisons are on parsed JSON trees, never on raw text; well-known types are additionally run as root messages (Value of all six kinds incl. null, Struct, ListValue, Timestamp, Duration, wrappers, FieldMask, Empty) for the Google V2 and Gogo runtimes, restricted to values the owning runtime's own JSON codec round-trips; typed nil pointers of 13 well-known types in the nil clause; gogo messages with an enum field imported from another gogo package are built by Go reflection (the bridge cannot reflect on them) and compared with gogo's jsonpb; two values per type have their strings overwritten in field order from a curated list (trailing backslash first, then ', ' / ':  ' / quotes / braces); adapters are also given the OTHER side's options set to the opposite values (no documented effect there); self-recursive types get chains 101 and 140 levels deep",
         "assumptions": TRUST_GEN + ["the owning runtime's JSON implementation is the stated oracle for option effects"],
     },
 })
